@@ -45,7 +45,6 @@ pub enum Event {
         x_after: u32,
         mode_before: u8,
         mode_after: u8,
-        doubled: bool,
     },
     /// The no-feedback timer expired.
     NoFeedbackExpired { now_ms: u64, x_before: u32, x_after: u32, mode: u8 },
